@@ -9,6 +9,7 @@ class C03(Check):
     id = 'C03'
     module = 'Xrl.Props.C03'
     namespace = 'Xrl.C03'
+    extra_modules = [('Xrl.Props.C03b', 'Xrl.C03'), ('Xrl.Props.C03c', 'Xrl.C03')]
     functions = None
     assumptions = ['contract theorems exist for the functions that have a specification theorem (accessors, line energies/rates, spline sites, totals); '
                    'the other exported numeric functions are covered by the contract oracle on the real library and by the correspondence run only',
